@@ -55,7 +55,9 @@ ENTRY = {
  "C08": [X+"NewXMSSFromSeed", X+"NewXMSSFromExtendedSeed", X+"XMSS_Sign", X+"XMSS_SetIndex", X+"XMSS_GetIndex", X+"XMSS_GetExtendedSeed", X+"XMSS_GetPK"],
  "C09": [X+"NewXMSSFromSeed", X+"NewXMSSFromExtendedSeed", X+"NewXMSSFromHeight", X+"XMSS_GetExtendedSeed", X+"XMSS_GetMnemonic", X+"XMSS_GetHexSeed", X+"XMSS_GetSeed", X+"XMSS_GetPK",
          X+"XMSS_GetAddress", D+"New", D+"NewDilithiumFromSeed", D+"NewDilithiumFromMnemonic", D+"NewDilithiumFromHexSeed", D+"Dilithium_GetSeed", D+"Dilithium_GetHexSeed",
-         D+"Dilithium_GetMnemonic", D+"Dilithium_GetPK", D+"Dilithium_GetSK", D+"Dilithium_GetAddress"],
+         D+"Dilithium_GetMnemonic", D+"Dilithium_GetPK", D+"Dilithium_GetSK", D+"Dilithium_GetAddress",
+         # "recovered" is observed through what the recovered key does: its signatures must be those of the original
+         X+"XMSS_Sign", X+"XMSS_SetIndex", D+"Dilithium_Sign", D+"Dilithium_Seal"],
  "C10": [M+"MnemonicToSeedBin", M+"MnemonicToExtendedSeedBin", M+"SeedBinToMnemonic", M+"ExtendedSeedBinToMnemonic"],
  "C11": [],
  "C12": [],
